@@ -60,8 +60,8 @@ def sample_policy_spec(name: str, env_name: str, rng) -> dict:
         spec["kw"]["normalization"] = rng.choice(["instance", "batch"])
     if name == "mdam":
         spec["kw"]["num_paths"] = rng.choice([2, 3])
-    if name == "am":
-        spec["kw"]["use_graph_context"] = rng.random() < 0.8
+    if name in ("am", "ham", "symnco"):  # (PolyNetPolicy forwards its kwargs to the encoder too: not settable)
+        spec["kw"]["use_graph_context"] = rng.random() < 0.5
     return spec
 
 
